@@ -70,6 +70,19 @@ Theorem wait_sound : forall w, base_ok opt_half w ->
   forall s, s_cache s = false -> allowed_wait (fst (run w f_wait s)) (gone w (snd (run w f_wait s))).
 Proof. intros w Hb s Hc. exact (wait_guarded_sound_w w opt_half Hb f_wait (proj1 wait_table) s Hc). Qed.
 
+(* any HISTORY of calls on one object (each call started from whatever the earlier ones left in the object's fields;
+   faults anywhere in the history): every call of it ends as the property allows *)
+Theorem history_sound : forall w, base_ok opt_half w -> forall ps, (forall p, In p ps -> In p (block_scripts ++ linux_scripts)) ->
+  forall s, s_cache s = false ->
+  Forall (fun rs => allowed (fst rs) (gone w (snd rs))) (run_hist w ps s).
+Proof.
+  intros w Hb. induction ps as [|p r IH]; intros Hin s Hc; simpl.
+  - constructor.
+  - constructor.
+    + apply linux_methods_sound; auto. apply Hin. left. reflexivity.
+    + apply IH; [intros q Hq; apply Hin; right; exact Hq | reflexivity].
+Qed.
+
 (* the memoising accessors: with the memo set they answer without touching the OS (that is why a later call on a
    vanished process may still answer); with the memo empty they are ordinary OS-consulting queries *)
 Theorem cached_accessors : forall f body, In (f, body) cached_table ->
